@@ -487,6 +487,11 @@ def owners(clause: str) -> set:
 
 def run(pid: str, tier: str) -> int:
     chk = Check(pid, tier)
+    run_into(chk, pid, tier)
+    return chk.finish()
+
+
+def run_into(chk: Check, pid: str, tier: str) -> None:
     quick = tier == 'quick'
     sd = seed()
     r = rng('play', pid)
@@ -495,7 +500,7 @@ def run(pid: str, tier: str) -> int:
                 'choice, winner-table trick); distinct_nontrivial counts '
                 'distinct (trump, declarer, plays so far, call) with at least '
                 'one card already played or a non-empty hand queried')
-    chk.assumptions = ['TLC, SANY, the Json community module',
+    chk.assumptions += ['TLC, SANY, the Json community module',
                        'the private list of cards of the current trick is not '
                        'read: it is checked through its effects (turn, winner, '
                        'history, playable sets)']
@@ -650,4 +655,3 @@ def run(pid: str, tier: str) -> int:
                  f'only ({sorted({p for x in others for p in owners(x.clause)})}); '
                  f'they are reported by those checks')
     report_rejects(chk, mine, 'play', key_of=lambda x: f'play:{x.clause}')
-    return chk.finish()
